@@ -4,7 +4,10 @@ correspondence : the *checked-execution* (`Ck`) Lean models of 24 kernels (gauss
                  jacobi_indexed, gauss_seidel_indexed, gauss_seidel_ne, gauss_seidel_nr, csc_scale_columns/rows,
                  maximum_row_value, rs_*_interpolation_pass1, naive_aggregation, standard_aggregation, classical_strength_of_connection_abs/_min,
                  symmetric_strength_of_connection, apply_(absolute_)distance_filter, min_blocks, jacobi_ne, one_point_interpolation, bellman_ford,
-                 breadth_first_search, maximal_independent_set_serial) are run on exact dyadic inputs; their `.val` must
+                 breadth_first_search, maximal_independent_set_serial) and, through the `ext_c17_*` ops of Driver/ExtE7.lean, of 11 more
+                 (bsr_gauss_seidel, bsr_jacobi, block_jacobi, block_gauss_seidel with `gemm`; rs_direct/classical_interpolation_pass2,
+                 remove_strong_FF_connections; truncate_rows_csr with its recursive quicksort, filter_matrix_rows;
+                 incomplete_mat_mult_csr) are run on exact dyadic inputs (the two interpolation passes on IEEE doubles, bit for bit); their `.val` must
                  equal the output of the rebuilt kernel exactly and their `ok` flag must be true (the flag is what the
                  safety theorems of Props/C17.lean are about); malformed controls must clear the flag.  The proof-side
                  models of the termination theorems (bfs/cc/colouring/parallel MIS/Bellman-Ford, RS splitting) are
@@ -49,9 +52,9 @@ META = {
             '(kernel, dtype signature, argument bytes)',
     'search_only': ['no undefined integer / shift / pointer operation: UBSan + _GLIBCXX_ASSERTIONS on the rebuilt kernels (not modelled in Lean)',
                     'releases what it allocates: live-heap-bytes delta around every traced call (ASan allocator statistics)',
-                    'bounds safety of the 41 kernels without a Ck model (all BSR/block relaxation, Schwarz, RS splitting as a whole and its second pass, CLJP, '
-                    'classical/direct interpolation pass 2, remove_strong_FF_connections, cr_helper, AIR pass 1/2, pairwise aggregation, truncate_rows_csr, '
-                    'fit_candidates, satisfy_constraints, calc_BtB, incomplete products, evolution_strength_helper, filter_matrix_rows, pinv_array, Krylov helpers, '
+                    'bounds safety of the 30 kernels without a Ck model (the indexed BSR/block relaxation kernels, Schwarz, RS splitting as a whole and its second pass, CLJP, '
+                    'cr_helper, AIR pass 1/2, pairwise aggregation, '
+                    'fit_candidates, satisfy_constraints, calc_BtB, incomplete_mat_mult_bsr, evolution_strength_helper, pinv_array, Krylov helpers, '
                     'Lloyd/Floyd-Warshall graph kernels, parallel/k MIS and the colourings, connected_components): ASan on generated inputs',
                     'termination of the kernels with data-dependent loops other than the five with a *_total theorem: CPU-time limit per call',
                     'reads of uninitialised work memory: only through ASan malloc_fill (0xbe) turning garbage indices into wild accesses, and output poisoning',
@@ -63,6 +66,9 @@ META = {
     'assumptions': ['admissible sweep = `stop` is reached from `start` in k steps of `step`, all visited rows inside 0..n-1 (Ck.Adm); for block kernels rows are block rows; '
                     'jacobi_ne (loops `i < stop`) is called with start >= 0, stop <= n, step > 0 only',
                     'inputs the Python callers never construct (S with diagonal for RS/CLJP, unsorted subdomains for Schwarz) are not generated',
+                    'interpolation pass 2 (direct, classical): `Pp` is the output of the matching first pass on the same S / splitting (PpOK, proved for the pass-1 model: '
+                    'interpolation_pass1_establishes_PpOK) and Pj, Px hold at least Pp[n] entries; truncate_rows_csr: k >= 0; filter_matrix_rows with lump: no norm is below theta*0 '
+                    '(hypothesis on the abstract scalar operations, true for IEEE doubles and exact arithmetic); BSR kernels: Ax holds blocksize^2 values per stored block',
                     'scalar arithmetic is abstract in the theorems; overflow of 32-bit index arithmetic is left to UBSan on sizes n <= 40'],
     'trusted_extra': ['g++ AddressSanitizer/UBSan runtime and libstdc++ assertions (the instrumented build is the oracle of the search)',
                       'harness/props/c17.py CONTRACT table: which output regions each kernel must define'],
@@ -1690,12 +1696,109 @@ class GuardedCore:
         return g
 
 
+def fbits(a):
+    """IEEE doubles as bit patterns (any NaN as `nan`), the encoding of `parseFloats` / `showFloats` of Driver/ExtE7.lean"""
+    a = np.ascontiguousarray(a, dtype=np.float64)
+    if len(a) == 0:
+        return '-'
+    return ','.join('nan' if np.isnan(v) else str(int(b)) for v, b in zip(a, a.view(np.uint64)))
+
+
+def bsr_exact(rng, ip, ix, bs):
+    """block values: small integers; the diagonal of each diagonal block is a power of two or 0 (the point sweeps divide by it)"""
+    dx = rng.integers(-3, 4, size=(len(ix), bs, bs)).astype(np.float64)
+    for i in range(len(ip) - 1):
+        for jj in range(ip[i], ip[i + 1]):
+            if ix[jj] == i:
+                for k in range(bs):
+                    dx[jj, k, k] = float(rng.choice([1, 2, 4, -2, 0.5, 0.0], p=[.25, .25, .15, .15, .1, .1]))
+    return dx.ravel()
+
+
+def ext_model_items(rng, amg_core, add, n, ip, ix, dx):
+    """extension E7: the checked models of Model/ExtC17Ck*.lean (driver ops `ext_c17_<kernel>`) against the rebuilt kernels"""
+    from common import enc_ints, enc_rats, enc_rat
+    nt = len(ix) > 0
+    hdr = f'{n} {enc_ints(ip)} {enc_ints(ix)} {enc_rats(dx)}'
+    # linalg.h: filter_matrix_rows, both branches (thresholds exact: theta dyadic, values small integers)
+    for lump in (True, False):
+        th = float(rng.choice([0.0, 0.25, 0.5, 1.0, 2.0]))
+        ax = dx.copy()
+        amg_core.filter_matrix_rows(n, th, ip, ix, ax, lump)
+        add(f'ext_c17_filter_matrix_rows {enc_rat(th)} {int(lump)} {hdr}', enc_rats(ax) + ';ok', 'filter_matrix_rows', nt)
+    # smoothed_aggregation.h: truncate_rows_csr (rectangular, ties between equal norms included)
+    mc = int(rng.integers(1, 8))
+    tp, tj, tx, _ = _exact_csr(rng, n, m=mc)
+    k = int(rng.integers(0, 5))
+    Sj, Sx = tj.copy(), tx.copy()
+    amg_core.truncate_rows_csr(n, k, tp, Sj, Sx)
+    add(f'ext_c17_truncate_rows_csr {k} {n} {enc_ints(tp)} {enc_ints(tj)} {enc_rats(tx)}', f'{enc_ints(Sj)};{enc_rats(Sx)};ok', 'truncate_rows_csr', len(tj) > 0)
+    # evolution_strength.h: incomplete_mat_mult_csr, A (n x kk, CSR), B (kk x mc, CSC arrays), S (n x mc pattern); sorted and unsorted operands
+    kk = int(rng.integers(1, 7))
+    srt = bool(rng.random() < 0.7)
+    ap, aj, ax, _ = _exact_csr(rng, n, m=kk, unsorted=not srt)
+    bp, bj, bx, _ = _exact_csr(rng, mc, m=kk, unsorted=not srt)
+    sp, sj, sx0, _ = _exact_csr(rng, n, m=mc)
+    sx = sx0.copy()
+    amg_core.incomplete_mat_mult_csr(ap, aj, ax, bp, bj, bx, sp, sj, sx, n)
+    add(f'ext_c17_incomplete_mat_mult_csr {n} {enc_ints(ap)} {enc_ints(aj)} {enc_rats(ax)} {mc} {enc_ints(bp)} {enc_ints(bj)} {enc_rats(bx)} '
+        f'{n} {enc_ints(sp)} {enc_ints(sj)} {enc_rats(sx0)}', enc_rats(sx) + ';ok', 'incomplete_mat_mult_csr', len(sj) > 0)
+    # ruge_stuben.h: S = a sub-pattern of A (strength), with or without the diagonal; any splitting
+    keep = rng.random(len(ix)) < float(rng.choice([0.5, 0.8, 1.0]))
+    sp = np.zeros(n + 1, dtype=np.int32)
+    for i in range(n):
+        sp[i + 1] = sp[i] + int(keep[ip[i]:ip[i + 1]].sum())
+    sj, sx = ix[keep].copy(), dx[keep].copy()
+    split = rng.integers(0, 2, size=n).astype(np.int32)
+    shdr = f'{n} {enc_ints(sp)} {enc_ints(sj)}'
+    fx = sx.copy()
+    amg_core.remove_strong_FF_connections(n, sp, sj, fx, split)
+    add(f'ext_c17_remove_strong_FF_connections {shdr} {enc_rats(sx)} {enc_ints(split)}', enc_rats(fx) + ';ok', 'remove_strong_FF_connections', len(sj) > 0)
+    eps = fbits(np.array([1e-15]))
+    for p1, p2, extra in (('rs_direct_interpolation_pass1', 'rs_direct_interpolation_pass2', []),
+                          ('rs_classical_interpolation_pass1', 'rs_classical_interpolation_pass2', [bool(rng.integers(2))])):
+        Pp = np.full(n + 1, -7, dtype=np.int32)
+        getattr(amg_core, p1)(n, sp, sj, split, Pp)
+        nn = int(Pp[n])
+        Pj, Px = np.full(nn, -7, dtype=np.int32), np.full(nn, -7.0)
+        getattr(amg_core, p2)(n, ip, ix, dx, sp, sj, sx, split, Pp, Pj, Px, *extra)
+        pre = f'ext_c17_{p2}' + (f' {int(extra[0])} {eps}' if extra else '')
+        add(f'{pre} {n} {enc_ints(ip)} {enc_ints(ix)} {fbits(dx)} {enc_ints(sp)} {enc_ints(sj)} {fbits(sx)} {enc_ints(split)} {enc_ints(Pp)} '
+            f'{enc_ints(np.full(nn, -7))} {fbits(np.full(nn, -7.0))}', f'{enc_ints(Pj)};{fbits(Px)};ok', p2, nn > 0)
+    # relaxation.h: BSR / block kernels on a block pattern with nb block rows
+    nb, bs = int(rng.integers(1, 6)), int(rng.choice([1, 2, 2, 3]))
+    gp, gj, _, _ = _exact_csr(rng, nb)
+    gx = bsr_exact(rng, gp, gj, bs)
+    bh = f'{bs} {nb} {enc_ints(gp)} {enc_ints(gj)} {enc_rats(gx)}'
+    x0, b = rand_vec(rng, nb * bs), rand_vec(rng, nb * bs)
+    s0, s1, s2 = rand_sweep(rng, nb)
+    sw = f'{s0} {s1} {s2}'
+    om = float(rng.choice([0.5, 1.0, 1.5]))
+    bnt = len(gj) > 0
+    x = x0.copy()
+    amg_core.bsr_gauss_seidel(gp, gj, gx, x, b, s0, s1, s2, bs)
+    add(f'ext_c17_bsr_gauss_seidel {bh} {enc_rats(b)} {enc_rats(x0)} {sw}', enc_rats(x) + ';ok', 'bsr_gauss_seidel', bnt)
+    x, t0 = x0.copy(), rand_vec(rng, nb * bs)
+    t = t0.copy()
+    amg_core.bsr_jacobi(gp, gj, gx, x, b, t, s0, s1, s2, bs, np.array([om]))
+    add(f'ext_c17_bsr_jacobi {enc_rat(om)} {bh} {enc_rats(b)} {enc_rats(x0)} {enc_rats(t0)} {sw}', f'{enc_rats(x)};{enc_rats(t)};ok', 'bsr_jacobi', bnt)
+    dinv = rng.integers(-2, 3, size=nb * bs * bs).astype(np.float64) * 0.5
+    x, t = x0.copy(), t0.copy()
+    amg_core.block_jacobi(gp, gj, gx, x, b, dinv, t, s0, s1, s2, np.array([om]), bs)
+    add(f'ext_c17_block_jacobi {enc_rat(om)} {bh} {enc_rats(b)} {enc_rats(dinv)} {enc_rats(x0)} {enc_rats(t0)} {sw}', f'{enc_rats(x)};{enc_rats(t)};ok',
+        'block_jacobi', bnt)
+    x = x0.copy()
+    amg_core.block_gauss_seidel(gp, gj, gx, x, b, dinv, s0, s1, s2, bs)
+    add(f'ext_c17_block_gauss_seidel {bh} {enc_rats(b)} {enc_rats(dinv)} {enc_rats(x0)} {sw}', enc_rats(x) + ';ok', 'block_gauss_seidel', bnt)
+
+
 def model_items(seed, ncases, inflight):
     """(runs in a child process) correspondence requests for the Lean driver with the outputs of the real kernels"""
     from pyamg import amg_core as _core
     from common import enc_ints, enc_rats, enc_rat
     amg_core = GuardedCore(_core, inflight)
     rng = np.random.default_rng([seed, 1717])
+    rng_ext = np.random.default_rng([seed, 1717, 7])      # own stream: the first 25 models keep their inputs
     items = []          # (line, expected, what, nontrivial)
     feats_all = collections.Counter()
 
@@ -1835,6 +1938,7 @@ def model_items(seed, ncases, inflight):
         xm_ = np.full(n, -1, dtype=np.int32)
         amg_core.maximal_independent_set_serial(n, ip, ix, -1, 1, 0, xm_)
         add(f'c17_mis {n} {enc_ints(ip)} {enc_ints(ix)} -1 1 0 {enc_ints(np.full(n, -1))}', enc_ints(xm_) + ';ok', 'maximal_independent_set_serial', nt)
+        ext_model_items(rng_ext, amg_core, add, n, ip, ix, dx)
         # proof-side models of the termination theorems + RS model (existing ops; symmetric graphs, no self loops for RS)
         gp, gj, gx, _ = _exact_csr(rng, n, sym=True, diag='none', unsorted=False)
         gh = f'{n} {enc_ints(gp)} {enc_ints(gj)}'
@@ -1918,6 +2022,23 @@ def part_model(ctx, ncases):
         ('c17_soc_min 0 2 0,2,4 0,1,0,1 -1,-1,-1,-1 -7,-7,-7 -7,-7,-7 -7,-7,-7', ';fault'),
         ('c17_symsoc 0 2 0,2,4 0,1,0,1 1,1,1,1 -7,-7,-7 -7,-7,-7 -7,-7,-7', ';fault'),          # Sj/Sx one entry short
         ('c17_symsoc 0 2 0,1,2 0,3 1,1 -7,-7,-7 -7,-7 -7,-7', ';fault'),                        # diags[3] out of range
+        # extension E7
+        ('ext_c17_filter_matrix_rows 1 1 2 0,1,3 0,1,0 4,1', ';fault'),                                # Ax shorter than the row pointer says
+        ('ext_c17_filter_matrix_rows 1 0 2 0,1,3 0,1,0 4,1', ';fault'),
+        ('ext_c17_remove_strong_FF_connections 2 0,1,2 1,5 1,1 0,0', ';fault'),                       # column index 5: splitting[5]
+        ('ext_c17_incomplete_mat_mult_csr 1 0,1 0 1 1 0,1 0 1 1 0,1 3 7', ';fault'),                   # S has column 3, B has one column
+        ('ext_c17_truncate_rows_csr 1 1 0,3 0,1 5,1', ';fault'),                                       # row pointer beyond Sj/Sx
+        ('ext_c17_bsr_gauss_seidel 2 1 0,1 0 1,0,0,1 1,1 0 0 1 1', ';fault'),                          # x has 1 entry, one 2x2 block row needs 2
+        ('ext_c17_bsr_gauss_seidel 2 1 0,1 0 1,0,0,1 1,1 0,0 0 3 2', 'nonterm'),                       # stop = 3 is stepped over
+        ('ext_c17_bsr_gauss_seidel 2 1 0,1 0 1,0,0 1,1 0,0 0 1 1', ';fault'),                          # Ax one value short of a 2x2 block
+        ('ext_c17_bsr_jacobi 1 2 1 0,1 0 1,0,0,1 1,1 0,0 0 0 1 1', ';fault'),                          # temp shorter than x
+        ('ext_c17_block_jacobi 1 2 1 0,1 0 1,0,0,1 1,1 1,0,0 0,0 0,0 0 1 1', ';fault'),                # Tx one value short
+        ('ext_c17_block_gauss_seidel 2 2 0,2,2 0,1 1,0,0,1,1,1,1,1 1,1,1,1 1,0,0,1,1,0,0,1 0,0 0 2 1', ';fault'),   # x half as long as the columns
+        # one F row with two strong C neighbours: Pp = 0,2,3,4
+        ('ext_c17_rs_direct_interpolation_pass2 3 0,3,4,5 0,1,2,1,2 0,0,0,0,0 0,2,2,2 1,2 0,0 0,1,1 0,2,3,4 -7,-7,-7 0,0,0', ';fault'),   # Pj one short
+        ('ext_c17_rs_direct_interpolation_pass2 3 0,3,4,5 0,1,2,1,2 0,0,0,0,0 0,2,2,2 1,2 0,0 0,1,1 1,3,4,5 -7,-7,-7,-7,-7 0,0,0,0,0', ';fault'),  # Pp[0] = 1: slot 0 is never written, the renumbering reads map[-7]
+        ('ext_c17_rs_classical_interpolation_pass2 0 0 3 0,3,4,5 0,1,2,1,2 0,0,0,0,0 0,2,2,2 1,2 0,0 0,1,1 0,2,3,4 -7,-7,-7,-7 0,0,0', ';fault'),   # Px one short
+        ('ext_c17_rs_classical_interpolation_pass2 1 0 3 0,3,4,5 0,1,2,1,2 0,0,0,0,0 0,2,2,2 1,7 0,0 0,1,1 0,2,3,4 -7,-7,-7,-7 0,0,0,0', ';fault'),  # Sj = 7
     ]
     outs = ctx.lean([c[0] for c in controls], chunks=1)
     for (line, want), o in zip(controls, outs):
